@@ -187,7 +187,7 @@ func compileGuarded(w *world, bin []byte) (cm wazero.CompiledModule, err error, 
 }
 
 func genPlan(t *tape.Tape) *plan.Plan {
-	p := plan.Generate(t, plan.Opts{MinFuncs: 3, MaxFuncs: 8, MaxAtoms: 6, Host: true, Traps: true, Grow: true, Table: true, Segments: true, GRef: true})
+	p := plan.Generate(t, plan.Opts{MinFuncs: 3, MaxFuncs: 8, MaxAtoms: 6, Host: true, Traps: true, Grow: true, Table: true, Segments: true, GRef: true, Wide: true})
 	p.Name = "pc"
 	return p
 }
